@@ -224,6 +224,8 @@ def gen_detector(rng, points=False, same_z=False, maxn=12):
         spacing = [u(rng, 0.05, 0.2), u(rng, 0.05, 0.2)] if rng.random() < 0.6 else [rng.choice([0.1, 0.0851, 0.125])] * 2
         origin = [0.0, 0.0, 0.0] if rng.random() < 0.5 else [u(rng, -1, 1), u(rng, -1, 1), u(rng, -0.5, 0.5)]
         d.update(kind="grid", shape=shape, spacing=spacing, origin=origin)
+        if rng.random() < 0.12 and shape[0] * shape[1] <= 20:
+            d["zs"] = sorted(u(rng, -0.5, 1.5) for _ in range(rng.choice([2, 3])))      # several z planes
     d["attrs"] = [list(a) for a in EXTRA_ATTRS if rng.random() < 0.3]
     d["preset"] = {}
     return d
@@ -280,6 +282,8 @@ def gen_real_spec(rng, k):
         th.update(lens_angle=u(rng, 0.5, 1.0), npts=[rng.randint(8, 16), rng.randint(8, 16)])
     tm = fam in ("tmatrix", "tmatrix_sphere", "lens_tm")
     det = gen_detector(rng, points=points, same_z=fam.startswith("mielens"))
+    if fam.startswith("mielens"):
+        det.pop("zs", None)      # MieLens refuses detectors with several z planes (ValueError): an unsupported configuration
     passed, full = gen_optics(rng, det, tmatrix=tm)
     spec = dict(id=k, scat=sc, theory=th, det=det, optics=passed, scaling=gen_scaling(rng), channels=None)
     if not points and rng.random() < 0.2 and fam in ("mie", "mie_ff", "layered", "mie_sup", "multisphere", "mielens"):
@@ -291,6 +295,7 @@ def gen_real_spec(rng, k):
         # the detector's illumination coordinate and every dict-valued optic list the labels in their OWN order
         spec["channels"] = shuffled()
         det["preset"] = {}
+        det.pop("zs", None)
         if det["shape"][0] == 1:
             # detector_grid((1, n), spacing, extra_dims=...) cannot be constructed (data_grid adds the z axis only
             # when len(arr) > 1 or arr.ndim == 2): an unsupported configuration, not a calculation result
@@ -395,7 +400,14 @@ def build_detector(d, channels=None):
     from holopy.core.metadata import detector_grid, detector_points, update_metadata
     if d["kind"] == "grid":
         extra = {"illumination": list(channels)} if channels else None
-        det = detector_grid(tuple(d["shape"]), tuple(d["spacing"]), name=d["name"], extra_dims=extra)
+        if d.get("zs"):
+            # a detector with several z planes (a volume), built by the documented factory data_grid
+            from holopy.core.metadata import data_grid
+            nx, ny = d["shape"]
+            shp = (len(d["zs"]), nx, ny) + ((len(channels),) if channels else ())
+            det = data_grid(np.zeros(shp), tuple(d["spacing"]), name=d["name"], extra_dims=extra, z=list(d["zs"]))
+        else:
+            det = detector_grid(tuple(d["shape"]), tuple(d["spacing"]), name=d["name"], extra_dims=extra)
         o = d["origin"]
         if any(o):
             det = det.assign_coords(x=det.x + o[0], y=det.y + o[1], z=det.z + o[2])
@@ -884,6 +896,63 @@ def gen_history_set(rng, n):
     return specs
 
 
+def gen_sibling_set(rng, fam):
+    """a base request and its one-factor siblings: each differs from the base in exactly ONE input (detector z, origin,
+    spacing, shape; particle size, index, position; medium, wavelength, polarisation, scaling, theory option).
+    Adversarial for any memo / cache whose key leaves one input out: whichever of base and sibling runs second would
+    get the other's cached intermediate, so the permuted orders of check_history disagree."""
+    import copy as _copy
+    tm = fam in ("tmatrix", "lens_tm")
+    shape = [rng.randint(3, 6), rng.randint(3, 6)]
+    th = dict(kind=fam)
+    if fam == "mielens":
+        th["lens_angle"] = u(rng, 0.5, 1.0)
+    if fam.startswith("lens"):
+        th.update(lens_angle=u(rng, 0.5, 1.0), npts=[10, 12])
+    if fam in ("multisphere", "mie_sup"):
+        sc = gen_spheres(rng, 2)
+    elif tm:
+        sc = gen_tm_scatterer(rng)
+    else:
+        sc = gen_sphere(rng)
+    base = dict(scat=sc, theory=th, scaling=u(rng, 0.3, 1.2), channels=None,
+                det=dict(kind="grid", name="data", shape=shape, spacing=[0.1, 0.125], origin=[0.0, 0.0, 0.0], attrs=[], preset={}),
+                optics=dict(medium_index=1.33, illum_wavelen=0.66, illum_polarization=[1, 0] if tm else [0.6, 0.8]))
+    sibs = [base]
+
+    def sib(path, fn):
+        q = _copy.deepcopy(base)
+        o = q
+        for k in path[:-1]:
+            o = o[k]
+        o[path[-1]] = fn(o[path[-1]])
+        sibs.append(q)
+    sib(("det", "origin"), lambda v: [v[0], v[1], 1.5])
+    sib(("det", "origin"), lambda v: [0.7, v[1], v[2]])
+    sib(("det", "origin"), lambda v: [v[0], -0.45, v[2]])
+    sib(("det", "spacing"), lambda v: [v[0] * 1.5, v[1]])
+    sib(("det", "shape"), lambda v: [v[0] + 1, v[1]])
+    sib(("optics", "medium_index"), lambda v: 1.4)
+    sib(("optics", "illum_wavelen"), lambda v: 0.52)
+    if not tm:
+        sib(("optics", "illum_polarization"), lambda v: [0.8, -0.6])
+    sib(("scaling",), lambda v: v * 0.5)
+    if "lens_angle" in th:
+        sib(("theory", "lens_angle"), lambda v: v * 0.8)
+    members = sc["members"] if sc.get("kind") == "spheres" else None
+    tgt = ("scat", "members", 0) if members else ("scat",)
+    m0 = members[0] if members else sc
+    for key, fn in (("n", lambda v: v + 0.05 if not isinstance(v, list) else v), ("center", lambda v: [v[0] + 0.3, v[1], v[2]]),
+                    ("center", lambda v: [v[0], v[1], v[2] + 0.8])):
+        if key in m0:
+            sib(tgt + (key,), fn)
+    if "r" in m0 and not isinstance(m0["r"], list):
+        sib(tgt + ("r",), lambda v: v * 0.8)
+    for k, q in enumerate(sibs):
+        q["id"] = k
+    return sibs
+
+
 def digest(spec):
     import numpy as np
     import xarray as xr
@@ -990,6 +1059,11 @@ def stage_history(ctx):
     for s in range(ctx.n(1, 3)):
         specs = gen_history_set(rng, ctx.n(8, 10))      # + 4 auto requests and their 4 explicit twins
         check_history(ctx, specs, "h%d" % s, perms=3, alone=(ctx.tier == "thorough" and s == 0))
+    fams = ["mie", "mielens", "lens_mie", "multisphere", "tmatrix", "mie_sup", "layered", "lens_tm"]
+    for s, fam in enumerate(fams[:ctx.n(5, 8)]):
+        specs = gen_sibling_set(rng, fam)
+        ctx.count("history:sibling-set:" + fam)
+        check_history(ctx, specs, "sib%d" % s, perms=2)
 
 
 # --------------------------------------------------------------------------- entry points
